@@ -1011,6 +1011,7 @@ pub fn main_c01(tier_name: &str, seed: u64) -> i32 {
     extra.insert("event_log_digest".into(), json!(format!("{:016x}", log_digest.0)));
     extra.insert("renderer_sweep".into(), json!({"calls": sweep.len(), "instances": tr.sweep_instances, "exhaustive_over": "every cardinal x every single feature/node toggle, per instance"}));
     extra.insert("real_vs_stub".into(), report::real_vs_stub());
+    extra.insert("known_findings_reproduced".into(), json!(violations.iter().filter(|v| known.matches(v).is_some()).map(|v| format!("{}:{}", v.clause, v.signature)).collect::<Vec<_>>()));
     let ev = Evidence {
         property: "C01".into(),
         tier: tr.name.into(),
@@ -1028,7 +1029,7 @@ pub fn main_c01(tier_name: &str, seed: u64) -> i32 {
             "schedule granularity is one library call: the library has no internal synchronisation points".into(),
         ],
         wall_s: wall,
-        violations: violations.len() as u64,
+        violations: violations.iter().filter(|v| known.matches(v).is_none()).count() as u64,
     };
     ev.write();
     println!(
